@@ -112,7 +112,8 @@ Print Assumptions C06_pubcomp_completes.
 
 (* C06_partial: what is still decided by the monitor mon_c06 (ghost store from operations and events
    against the exported store) and the correspondence rather than a theorem: the v5.0 form of
-   accepted_sent_or_stored; the ownership theorems assume a determined protocol version. *)
+   accepted_sent_or_stored.  (For an endpoint created with an undetermined version the ownership
+   invariant is C08_fresh_ownership_invariant_any_version.) *)
 
 Example C06_nonvacuous :
   let g := mkCfg RClient 65535 2 in
